@@ -1,6 +1,9 @@
-"""C09, low-rank fast assembler (mass_fast / stiffness_fast): every case runs in a FRESH interpreter because
-the ACA pivot search in fastasm.cc draws from the process-global, unseeded C rand(); the result of a fresh
-process is therefore deterministic, which is checked by running every case twice.
+"""C09, low-rank fast assembler (mass_fast / stiffness_fast): the ACA pivot search in fastasm.cc draws from the
+process-global, unseeded C rand(), so the result of a fresh process is deterministic but depends on what ran
+before in the same process.  Every case therefore runs in its own child whose rand() state is the pristine one
+(forked child + srand(1), which the C standard defines to be the never-seeded sequence); every case runs twice
+(determinism), and cases flagged "exec" run the second time in a newly exec'ed interpreter to confirm that
+the forked children see exactly what a fresh process sees.
 
 Worker protocol: `python -c <bootstrap> <json case>` prints one JSON line
   {"err": max|A_fast - A_gauss|, "amax": max|A_gauss|, "stop": <ACA stop reason>, "sha": <hash of A_fast>, "shape": [..]}
@@ -9,9 +12,11 @@ import hashlib
 import io
 import json
 import os
+import select
 import signal
 import subprocess
 import sys
+import time
 
 import numpy as np
 
@@ -57,8 +62,8 @@ def stop_reason(log):
     return reason
 
 
-def worker_main(arg):
-    case = json.loads(arg)
+def compute(case):
+    """assemble with the Gauss assembler and with the fast assembler in THIS process; summary dict"""
     out = {}
     try:
         from pyiga import assemble
@@ -85,14 +90,19 @@ def worker_main(arg):
         if A.shape == ref.shape:
             out["err"] = float(abs(A - ref).max())
             out["amax"] = float(abs(ref).max())
-            out["asym"] = float(abs(A - A.T).max())
     except Exception as e:
         out = {"exception": type(e).__name__, "repr": repr(e)}
+    return out
+
+
+def worker_main(arg):
+    out = compute(json.loads(arg))
     sys.stdout.write("\nC09FAST " + json.dumps(out) + "\n")
     sys.stdout.flush()
 
 
-def run_fresh(case):
+def run_exec(case):
+    """a really fresh interpreter"""
     env = dict(os.environ)
     env.setdefault("OMP_NUM_THREADS", "1")
     try:
@@ -108,13 +118,69 @@ def run_fresh(case):
     return {"exception": "NoOutput", "repr": "exit code %d, stderr tail: %s" % (r.returncode, r.stderr[-300:])}
 
 
+def run_fork(case):
+    """a forked child whose C rand() state is reset to the pristine one: by the C standard the sequence of a
+    process that never called srand() is the sequence after srand(1)"""
+    r, w = os.pipe()
+    sys.stdout.flush()
+    sys.stderr.flush()
+    pid = os.fork()
+    if pid == 0:
+        code = 0
+        try:
+            os.close(r)
+            import ctypes
+            ctypes.CDLL(None).srand(1)
+            data = json.dumps(compute(case)).encode()
+            off = 0
+            while off < len(data):
+                off += os.write(w, data[off:])
+            os.close(w)
+        except BaseException:
+            code = 3
+        finally:
+            os._exit(code)
+    os.close(w)
+    buf = b""
+    deadline = time.time() + TIMEOUT
+    timed_out = False
+    while True:
+        left = deadline - time.time()
+        if left <= 0:
+            timed_out = True
+            break
+        ready, _, _ = select.select([r], [], [], left)
+        if not ready:
+            timed_out = True
+            break
+        chunk = os.read(r, 1 << 16)
+        if not chunk:
+            break
+        buf += chunk
+    os.close(r)
+    if timed_out:
+        try:
+            os.kill(pid, signal.SIGKILL)
+        except OSError:
+            pass
+    _, status = os.waitpid(pid, 0)
+    if timed_out:
+        return {"timeout": True}
+    if os.WIFSIGNALED(status):
+        return {"signal": os.WTERMSIG(status)}
+    try:
+        return json.loads(buf.decode())
+    except Exception:
+        return {"exception": "NoOutput", "repr": "child exit status %d" % status}
+
+
 def check_fast(case, stats=None):
     probs = []
     which, tol = case["which"], case["tol"]
     part = "fast:" + which
     tag = "%s_fast(axes=%s, geo=%s, tol=%g)" % (which, case["axes"], case["geo"], tol)
-    r1 = run_fresh(case)
-    r2 = run_fresh(case)
+    r1 = run_fork(case)
+    r2 = run_exec(case) if case.get("exec") else run_fork(case)
     for r in (r1, r2):
         if r.get("timeout"):
             probs.append((part + ":timeout", "%s did not finish within %d s" % (tag, TIMEOUT)))
@@ -129,7 +195,8 @@ def check_fast(case, stats=None):
     if probs:
         return probs[:1], 2
     if r1 != r2:
-        probs.append((part + ":nondeterministic", "%s: two fresh processes give different results: %s vs %s" % (tag, r1, r2)))
+        probs.append((part + ":nondeterministic", "%s: two processes with pristine rand() state (%s) give different results: %s vs %s"
+                      % (tag, "forked child with srand(1) vs new interpreter" if case.get("exec") else "two forked children with srand(1)", r1, r2)))
     r = r1
     if r["shape"] != r["refshape"]:
         probs.append((part + ":shape", "%s: shape %s, Gauss assembler %s" % (tag, r["shape"], r["refshape"])))
